@@ -622,6 +622,18 @@ AFeatTransform(kind, i, j) ==
                    [] kind = "conditional" -> Opaque("ApproxCond"),
                  0, NoObj, NoObj))
 
+\* integrate_log_conditional(q) with q an arbitrary density over (y, x); integrate_log_conditional_y(p_x)(y) / (p_x, y=y)
+AFeatIntLogCond(i, j) ==
+    LET c == heap[i] q == heap[j] IN
+    /\ IsFeat(c) /\ IsPdf(q) /\ NumD(q) = FDx(c) + FDy(c)
+    /\ Emit(heap, Step("FeatIntLogCond", [i |-> i, j |-> j], NoObj, 0, NoObj, 0, NoObj,
+                       [val |-> MkSeq(NumR(q), LAMBDA r : FeatIntLogCond(c, q, r))]))
+AFeatIntLogCondY(i, j, s, via) ==
+    LET c == heap[i] p == heap[j] R == NumR(p) qY == Pick(PointMenu(FDy(c)), R, s) IN
+    /\ IsFeat(c) /\ IsPdf(p) /\ NumD(p) = FDx(c)
+    /\ Emit(heap, Step("FeatIntLogCondY", [i |-> i, j |-> j, y |-> qY, via |-> via], NoObj, 0, NoObj, 0, NoObj,
+                       [val |-> MkSeq(R, LAMBDA r : FeatIntLogCondY(c, p, r, QV(qY[r])))]))
+
 \* heteroscedastic models
 HetA(dy, da, s) == Q([a \in 1..dy |-> [b \in 1..da |-> IF a = b THEN 2 ELSE IF b > dy THEN ((a + b + s) % 3) - 1 ELSE IF b = a + 1 THEN 1 ELSE 0]], 2)
 \* generic small weights (exp / cosh-1): Dk x (Dx + 1), offset in column 1
